@@ -61,6 +61,8 @@ pub struct Cache {
 
     // Number of marker instances created inside of other markers.
     pub(crate) nested_marker_instances: usize,
+    // Number of elements copied by marker instances.
+    pub(crate) marker_elements: usize,
 }
 
 impl Cache {
@@ -84,6 +86,7 @@ impl Cache {
             image_index: 0,
 
             nested_marker_instances: 0,
+            marker_elements: 0,
         }
     }
 
